@@ -267,11 +267,81 @@ def xml_leaf(rng):
     return rng.choice(["plain", "two words", "äö 日本", "C:/path/x"])
 
 
+def enc_elem(e: ET.Element) -> str:
+    attrs = list(e.attrib.items())
+    kids = list(e)
+    a = " ".join([f"l{len(attrs)}"] + [f"{wire.enc_str(k)} {wire.enc_str(v)}" for k, v in attrs])
+    t = "none" if e.text is None else "some " + wire.enc_str(e.text)
+    k = " ".join([f"l{len(kids)}"] + [enc_elem(c) for c in kids])
+    return f"E {wire.enc_str(local(e.tag))} {a} {t} {k}"
+
+
+def dec_elem(rd: wire.Reader):
+    assert rd.next() == "E"
+    tag = rd.str()
+    attrs = rd.list(lambda: (rd.str(), rd.str()))
+    text = rd.opt(rd.str)
+    kids = rd.list(lambda: dec_elem(rd))
+    return (tag, dict(attrs), text, kids)
+
+
+def et_shape(e: ET.Element):
+    kids = [et_shape(c) for c in e]
+    text = e.text
+    if kids and (text is None or not text.strip()):
+        text = None
+    return (local(e.tag), dict(e.attrib), text or None, kids)
+
+
+def model_shape(t):
+    tag, attrs, text, kids = t
+    return (tag, attrs, text or None, [model_shape(k) for k in kids])
+
+
+def model_read(ctx, xmls):
+    """XmlParser._parse_nodes: implementation on the text vs model on the element tree xml.etree sees"""
+    dictIO = native.dictio()
+    mlines, ilines, cases = [], [], []
+    for xml in xmls:
+        root = ET.fromstring(xml.encode("utf-8"))
+        native.set_counter(-1)
+        mlines.append(f"xml_parse b1 i-1 {enc_elem(root)}")
+        try:
+            d = gen.plain(dict(dictIO.XmlParser().parse_string(xml, dictIO.SDict())))
+            d.pop("_xmlOpts", None)
+            ilines.append(wire.enc_tree(d) + f" i{native.counter_value()}")
+        except Exception as e:  # noqa: BLE001
+            ilines.append("raise " + type(e).__name__)
+        cases.append({"kind": "doc", "xml": xml})
+    mout = wire.run_model_sharded(mlines)
+    ctx.compare("XmlParser._parse_nodes", cases, mout, ilines)
+
+
+def model_write(ctx, dicts):
+    """populate_into_element: model element tree vs what xml.etree sees in the implementation's output"""
+    dictIO = native.dictio()
+    mlines = [f"xml_populate {wire.enc_str('NOTSPECIFIED')} {wire.enc_tree(d)}" for d in dicts]
+    mout = wire.run_model_sharded(mlines)
+    for d, ml in zip(dicts, mout):
+        ctx.corr_compared += 1
+        try:
+            xml = dictIO.XmlFormatter().to_string(copy.deepcopy(d))
+            got = et_shape(ET.fromstring(xml.encode("utf-8")))
+        except Exception as e:  # noqa: BLE001
+            got = ("raise", type(e).__name__)
+        m = model_shape(dec_elem(wire.Reader(ml)))
+        if m != got:
+            if len(ctx.disagreements) < 20:
+                ctx.disagree("XmlFormatter.populate_into_element", {"kind": "dict", "t": d}, repr(m)[:800], repr(got)[:800])
+
+
 def run(ctx):
     rng = ctx.rng
+    xmls, dicts = [], []
     for _ in range(ctx.n(400, 10000)):
         doc = gen_doc(rng)
         xml = render(doc)
+        xmls.append(xml)
         c = {"kind": "doc", "xml": xml, "ns": doc["ns"], "prefix": doc["prefix"]}
         r = oracle(c)
         if r:
@@ -280,11 +350,14 @@ def run(ctx):
         ctx.count(("d", xml), nt, "doc:" + doc["ns"], sample={"xml": xml} if nt and len(ctx.samples) < 3 else None)
     for _ in range(ctx.n(400, 10000)):
         t = gen.dom_tree(rng, max_nodes=rng.choice([4, 12]), max_depth=3, int_keys=0.0, list_p=0.0, key=name_key, leaf=xml_leaf)
+        dicts.append(t)
         c = {"kind": "dict", "t": t}
         r = oracle(c)
         if r:
             ctx.oracle_fail(c, r[0], r[1])
         ctx.count(("t", wire.enc_tree(t)), gen.tree_depth(t) >= 2, "dict", sample={"dict": t} if len(ctx.samples) < 5 else None)
+    model_read(ctx, xmls[: ctx.n(300, 3000)])
+    model_write(ctx, dicts[: ctx.n(300, 3000)])
     for k in ("doc:none", "doc:default", "doc:prefixed", "dict"):
         if ctx.classes[k] == 0:
             raise RuntimeError("generator starved")
